@@ -119,6 +119,13 @@ func c18Gen(rng *verifsim.RNG, idx int, tier string) *Plan {
 		}
 		p.Class += "+timeouts"
 	}
+	if !strings.Contains(p.Class, "+timeouts") && rng.Bool(0.15) {
+		// a receive fails for a transient reason (no buffers, network down) with
+		// no link event to go with it: the monitor takes a new connection and
+		// goes on describing what arrives
+		p.Faults = append(p.Faults, Fault{Seam: "read", From: rng.Int63n(t + 1), Count: 1, Err: []string{"ENOBUFS", "ENETDOWN"}[rng.Intn(2)]})
+		p.Class += "+receive-error"
+	}
 	p.Horizon = t + 2*nsSec
 	return p
 }
